@@ -49,6 +49,7 @@ struct Light { pos: vec3<f32>, color: vec4<f32>, arr: {{T|struct_member_type||ar
 alias AI = {{T|alias_target||i32}};
 const ZERO = 0;
 const GIDX = 2;
+fn leaf0() -> i32 { return 7; }
 fn leaf2(a: i32, b: i32) -> i32 { return a - b; }
 fn leafv(v: vec2<f32>) -> f32 { return v.y; }
 @must_use fn mu(a: i32) -> i32 { return a * 2; }
@@ -56,6 +57,8 @@ const ONE: i32 = {{E|module_const_init|i32|1}};
 const CF: f32 = {{E|module_const_init|f32|2.0}};
 const CV = vec3<f32>({{E|module_const_ctor_arg|f32|1.0}}, 2.0, 3.0);
 const CB: bool = {{E|module_const_init|bool|true}};
+const CT: {{T|module_const_type||i32}} = 7;
+override OT: {{T|override_type||f32}} = 1.5;
 override OV: i32 = {{E|override_init|i32|3}};
 var<private> gi: i32 = {{E|global_var_init|i32|4}};
 var<private> gf: f32;
@@ -78,6 +81,8 @@ fn big(n: i32) -> i32 {
   let k = {{E|let_init|i32|n}};
   let kt: {{T|let_type||i32}} = 1;
   const lc = {{E|local_const_init|i32|5}};
+  const lct: {{T|local_const_type||i32}} = 2;
+  var vti: {{T|local_var_type_with_init||i32}} = 3;
   var lv: {{T|local_var_type||vec3<f32>}};
   {{S|fn_body_top||}}
   { {{S|nested_block||}} { {{S|nested_block2||}} acc += {{E|nested_block_expr|i32|1}}; } }
@@ -110,11 +115,13 @@ fn big(n: i32) -> i32 {
 # a second, differently shaped program: parenthesised conditions, nested calls, struct values,
 # matrices, arrays of structs, early returns, helper chains, pointer arguments
 T2 = """
+enable f16;
 struct P { pos: vec4<f32>, n: vec3<f32>, id: u32, }
 struct Q { items: array<P, 2>, m: mat2x2<f32>, w: {{T|struct_member_type||vec2<f32>}}, }
 const N: u32 = 4u;
 const ZERO = 0;
 const GIDX = 2;
+fn leaf0() -> f32 { return 7.0; }
 fn leaf2(a: f32, b: f32) -> f32 { return a - b; }
 fn leafv(v: vec2<f32>) -> f32 { return v.y; }
 const TABLE = array<i32, 3>({{E|const_array_elem|i32|1}}, 2, 3);
@@ -257,6 +264,7 @@ def expr_breakers(tname):
     add("arg_count", "one_more", "fnret", False, "%s(%s, %s, %s)" % (fn2, fn2_ok_args[0], fn2_ok_args[1], fn2_ok_args[0]))
     add("arg_count", "one_less", "fnret", False, "%s(%s)" % (fn2, fn2_ok_args[0]))
     add("arg_count", "none", "fnret", False, "%s()" % fn2)
+    add("arg_count", "extra_for_zero_arg_fn", "fnret", False, "leaf0(%s)" % fn2_ok_args[0])
     # user-function call: wrong argument types
     add("arg_type", "bool_for_number", "fnret", False, "%s(true, %s)" % (fn2, fn2_ok_args[1]))
     add("arg_type", "wrong_scalar_kind", "fnret", False, "%s(%s, %s)" % (fn2, "1u" if tname == "T1" else "1i", fn2_ok_args[1]))
@@ -334,6 +342,7 @@ def stmt_breakers(tname):
         # statements whose expression breaks an expression rule (statement position, not an existing expression)
         ("undeclared_identifier", "assign_target", "nosuch_ident_q7 = 1;"),
         ("undeclared_identifier", "let_stmt", "let zz_q7 = nosuch_ident_q7;"),
+        ("undeclared_identifier", "in_const_assert", "const_assert nosuch_ident_q7 == 1;"),
         ("undeclared_function", "call_stmt", "nosuch_fn_q7();"),
         ("undeclared_type", "var_stmt", "var zz_q7: nosuch_t_q7;"),
         ("undeclared_identifier", "array_size_var_stmt", "var zz_q7: array<f32, nosuch_ident_q7>;"),
@@ -350,7 +359,7 @@ def stmt_breakers(tname):
 def decl_breakers(tname):
     """module-scope declarations inserted into a D hole"""
     one = "ONE" if tname == "T1" else "N"
-    B = [(r, v, t) for (r, v, t) in stmt_breakers(tname) if r == "const_assert_false"]
+    B = [(r, v, t) for (r, v, t) in stmt_breakers(tname) if r == "const_assert_false" or v == "in_const_assert"]
     B += [
         ("undeclared_identifier", "const_decl", "const zz_q7 = nosuch_ident_q7;"),
         ("undeclared_identifier", "global_var_init", "var<private> zz_q7: i32 = nosuch_ident_q7;"),
